@@ -30,14 +30,25 @@ Events (first element = tag):
     ('attach',  prefix, has_validator, t)                  handler h = index of the attach event
     ('interest', k, name, has_params, sig, digest_ok, verdict, t)   sig: 0 none | 1 DigestSha256 ok | 2 DigestSha256 bad
                                                            verdict: what the harness validator (if consulted) answers
+    ('arrive', k, name, has_params, sig, digest_ok, t)     an Interest whose application-supplied validator (if one is
+                                                           consulted) SUSPENDS until ('ivdone', k, verdict, t); the
+                                                           application may change its routes in between
+    ('ivdone', k, verdict, t)                              the suspended Interest validator of k answers
+    ('detach', prefix, t)                                  appv2 detach_handler / legacy unset_interest_filter
 Verdicts: v2: 0 FAIL 1 TIMEOUT 2 SILENCE 3 PASS 4 ALLOW_BYPASS 5 (raise TimeoutError);  v1: index into V1_VALUES.
 """
 import asyncio
+import contextvars
 import gc
 import hashlib
 import logging
 
 from harness.lib import vtloop
+
+# the incoming Interest being processed: (k, verdict, deferred).  Set when the packet is handed to the application; the
+# task the application creates for it (submit_interest) inherits the context, so a validator / handler that runs later -
+# after other Interests arrived - still knows which Interest it is working on.
+_CUR = contextvars.ContextVar('harness_cur_interest', default=None)
 
 V1_VALUES = [False, True, None, 0, 1, '', 'x', [], [0]]      # truthiness is what the legacy front-end looks at
 
@@ -166,6 +177,8 @@ class World:
         self.validated_before = {}
         self.int_wire2k = {}
         self.cur_k = None
+        self.ivfut = {}            # k -> future a suspended Interest validator is waiting on
+        self.detach_errors = []
         self.main = self.loop.create_task(self.app.main_loop())
         self.loop.settle()
 
@@ -360,24 +373,56 @@ class World:
 
             if self.fe == 'v2':
                 def handler(name, app_param, reply, context):
-                    world.handler_calls.append((h, world.cur_k))
-                    world.validated_before[world.cur_k] = world.cur_k in world.ivcalls
+                    kk = world.k_now()
+                    world.handler_calls.append((h, kk))
+                    world.validated_before[kk] = kk in world.ivcalls
 
                 async def validator(name, sig, context):
-                    world.ivcalls.append(world.cur_k)
-                    world.ivwho.append((world.cur_k, ('route', h)))
-                    return world.verdict_value(world.cur_verdict)
+                    return await world.int_verdict(('route', h))
                 self.app.attach_handler(pfx, handler, validator if has_validator else None)
             else:
                 def handler(name, param, app_param):
-                    world.handler_calls.append((h, world.cur_k))
-                    world.validated_before[world.cur_k] = world.cur_k in world.ivcalls
+                    kk = world.k_now()
+                    world.handler_calls.append((h, kk))
+                    world.validated_before[kk] = kk in world.ivcalls
 
                 async def validator(name, sig):
-                    world.ivcalls.append(world.cur_k)
-                    world.ivwho.append((world.cur_k, ('route', h)))
-                    return world.verdict_value(world.cur_verdict)
+                    return await world.int_verdict(('route', h))
                 self.app.set_interest_filter(pfx, handler, validator if has_validator else None)
+        return fn
+
+    def k_now(self):
+        cur = _CUR.get()
+        return cur[0] if cur is not None else self.cur_k
+
+    async def int_verdict(self, who):
+        """Body of every harness validator for incoming Interests: log, then answer at once or - for an 'arrive' event -
+        when the history says so ('ivdone')."""
+        cur = _CUR.get()
+        kk, v, deferred = cur if cur is not None else (self.cur_k, self.cur_verdict, False)
+        self.ivcalls.append(kk)
+        self.ivwho.append((kk, who))
+        if deferred:
+            fut = asyncio.get_running_loop().create_future()
+            self.ivfut[kk] = fut
+            v = await fut
+        return self.verdict_value(v)
+
+    def ev_detach(self, prefix):
+        pfx = [comp(k) for k in prefix]
+
+        def fn():
+            if self.fe == 'v2':
+                self.app.detach_handler(pfx)
+            else:
+                self.app.unset_interest_filter(pfx)
+        return fn
+
+    def ev_ivdone(self, k, v):
+        def fn():
+            fut = self.ivfut.pop(k, None)
+            if fut is not None and not fut.done():
+                fut.set_result(v)
         return fn
 
     def ev_setdefault(self, own):
@@ -392,9 +437,7 @@ class World:
                 self.n_default += 1
 
                 async def validator(name, sig):
-                    world.ivcalls.append(world.cur_k)
-                    world.ivwho.append((world.cur_k, ('default', g)))
-                    return world.verdict_value(world.cur_verdict)
+                    return await world.int_verdict(('default', g))
                 self.app.int_validator = validator
             else:
                 self.app.int_validator = self.lib_int_validator
@@ -429,13 +472,14 @@ class World:
             w[pos + 2:pos + 34] = h.digest()
         return bytes(w)
 
-    def ev_interest(self, k, name, has_params, sig, digest_ok, verdict):
+    def ev_interest(self, k, name, has_params, sig, digest_ok, verdict, deferred=False):
         wire = self.interest_wire(name, has_params, sig, digest_ok)
         inner = self.recv(5, wire)
 
         def fn():
             self.cur_k = k
             self.cur_verdict = verdict
+            _CUR.set((k, verdict, deferred))
             inner()
         return fn
 
@@ -459,6 +503,18 @@ class World:
         if tag == 'setdefault':
             self.position(ev[2], 0)
             self.apply(self.ev_setdefault(ev[1]), 0)
+            return
+        if tag == 'arrive':
+            _, k, name, has_params, sig, digest_ok, t = ev
+            self.position(t, 0)
+            self.apply(self.ev_interest(k, name, has_params, sig, digest_ok, None, deferred=True), 0)
+            return
+        if tag in ('ivdone', 'detach'):
+            self.position(ev[-1], 0)
+            try:
+                self.apply(self.ev_ivdone(ev[1], ev[2]) if tag == 'ivdone' else self.ev_detach(ev[1]), 0)
+            except Exception as e:      # noqa
+                self.errors.append((tag, type(e).__name__))
             return
         t, tie = ev[-2], ev[-1]
         if tag == 'express':
